@@ -448,6 +448,8 @@ fn case_only_names() -> Vec<ModGen> {
         bm(&[], vec![bt("roundtrip", 1, true), bt("RoundTrip", 2, true), bt("ROUNDTRIP", 3, true), bt("Roundtrip", 4, true), bt("roundTrip", 5, true), bt("other", 6, true), bf("Other", 11)]),
         bm(&["m"], vec![bt("ab", 7, true), bt("aB", 8, true), bt("Ab", 9, false), bt("AB", 10, true)]),
         // … and names that differ only in how a number is written (equal under a "natural" key)
+        // … non-ASCII names (the order is that of the UTF-8 bytes; case pairs outside ASCII)
+        bm(&["util"], vec![bt("é", 19, true), bt("É", 20, true), bt("e", 21, true), bt("ǆx", 22, true), bt("ǅx", 23, true), bt("Ǆx", 24, true), bt("z", 25, true)]),
         bm(&["zz"], vec![bt("t_1", 12, true), bt("t_01", 13, false), bt("t_001", 14, true), bt("case7", 15, true), bt("case07", 16, true), bt("t_10", 17, true), bt("t_2", 18, true)]),
     ]
 }
